@@ -46,8 +46,7 @@ fn merge_rules() -> Vec<Rewrite> { vec![
 #[rustfmt::skip]
 pub fn predicate_pushdown_rules() -> Vec<Rewrite> { vec![
     pushdown("filter", "?cond", "order", "?keys"),
-    pushdown("filter", "?cond", "limit", "?limit ?offset"),
-    pushdown("filter", "?cond", "topn", "?limit ?offset ?keys"),
+    // NOTE: a filter must not be pushed below `limit` / `topn`: the rows cut off depend on it.
     rw!("pushdown-filter-proj";
         "(filter ?cond (proj ?proj ?child))" =>
         "(proj ?proj (filter ?cond ?child))"
